@@ -386,6 +386,9 @@ class Interp:
             return VClass('str')
         if name == 'string_types':
             return VTuple([VClass('str')])
+        g0 = self.reg.module_global(mod, name)
+        if g0 is not None:
+            return g0(self.ctx)
         tree = self.prog.modules.get(mod)
         if tree is None:
             return None
